@@ -41,8 +41,12 @@ Commit(s) == \* on s.tx; returns [s, err]; handle tx cleared by callers
   ELSE IF t.aborted THEN [s |-> [Tick(s) EXCEPT !.txs[s.tx].done = TRUE, !.log = Append(@, "commit->rollback")], err |-> TRUE]
   ELSE [s |-> [Tick(s) EXCEPT !.txs[s.tx].done = TRUE, !.log = Append(@, "commit"),
                               !.committed = [k \in Keys |-> IF t.ws[k] # 0 THEN t.ws[k] ELSE @[k]]], err |-> FALSE]
+\* ROLLBACK is a primitive call too: it may fail (connection trouble) - the transaction is over on the server all the same,
+\* and the handle must let go of it (Abort has no result to report the failure with)
 Rollback(s) == LET t == s.txs[s.tx] IN
-  IF t.done THEN s ELSE [s EXCEPT !.txs[s.tx].done = TRUE, !.log = Append(@, "rollback")]
+  IF t.done THEN s
+  ELSE IF Fail(s) THEN [Tick(s) EXCEPT !.txs[s.tx].done = TRUE, !.log = Append(@, "FAIL:rollback")]
+  ELSE [Tick(s) EXCEPT !.txs[s.tx].done = TRUE, !.log = Append(@, "rollback")]
 
 \* Abort without a transaction is a no-op (was a nil dereference before the repair)
 Abort_(s) == IF s.tx = None THEN s ELSE [Rollback(s) EXCEPT !.tx = None]
